@@ -59,9 +59,12 @@ var c07SvgAttrs = []string{"transform", "viewBox", "preserveAspectRatio", "point
 var c07HtmlAttrs = [][2]string{{"td", "colspan"}, {"td", "rowspan"}, {"col", "span"}, {"colgroup", "span"}, {"ol", "start"}, {"li", "value"}, {"input", "size"}, {"textarea", "rows"},
 	{"img", "width"}, {"img", "height"}, {"table", "cellpadding"}, {"table", "cellspacing"}, {"table", "border"}, {"hr", "size"}, {"font", "size"}, {"td", "width"}, {"td", "height"}, {"table", "width"}, {"body", "marginheight"}}
 
+// svg.Parse is given a fetcher, as its callers in the library do (every URL fails: the sandbox has no network)
+var c07Fetcher = (&drv.Opts{}).Fetcher()
+
 func c07Sep(f string) string {
 	switch f {
-	case "selector", "svgattr", "color", "nth", "url", "htmlattr", "page":
+	case "selector", "svgattr", "svgref", "color", "nth", "url", "htmlattr", "page":
 		return ""
 	}
 	return " "
@@ -144,13 +147,20 @@ func c07Main(args []string) int {
 		case "svgpath":
 			for _, tpl := range []string{`<path d="%s"/>`, `<path d="%s" marker-mid="url(#m)"/><marker id="m"><path d="M0 0"/></marker>`} {
 				src := `<svg xmlns="http://www.w3.org/2000/svg" width="10" height="10">` + fmt.Sprintf(tpl, x) + `</svg>`
-				call("svg.Parse:path", src, func() string { _, err := svg.Parse(strings.NewReader(src), "", nil, nil); return okErr(err) })
+				call("svg.Parse:path", src, func() string { _, err := svg.Parse(strings.NewReader(src), "", nil, c07Fetcher); return okErr(err) })
 			}
 		case "svgattr":
 			for _, a := range c07SvgAttrs {
 				src := fmt.Sprintf(`<svg xmlns="http://www.w3.org/2000/svg" width="10" height="10" %s="%s"><g %s="%s"><rect width="5" height="5" %s="%s"/><polygon points="0,0 1,1" %s="%s"/><text %s="%s">t</text></g>`+
 					`<linearGradient id="g" %s="%s"><stop %s="%s"/></linearGradient></svg>`, a, x, a, x, a, x, a, x, a, x, a, x, a, x)
-				call("svg.Parse:"+a, src, func() string { _, err := svg.Parse(strings.NewReader(src), "", nil, nil); return okErr(err) })
+				call("svg.Parse:"+a, src, func() string { _, err := svg.Parse(strings.NewReader(src), "", nil, c07Fetcher); return okErr(err) })
+			}
+		case "svgref":
+			xe := strings.ReplaceAll(x, `"`, "&quot;")
+			for _, a := range []string{"mask", "clip-path", "filter", "marker-start", "marker-mid", "marker-end", "fill", "stroke", "href", "xlink:href"} {
+				src := fmt.Sprintf(`<svg xmlns="http://www.w3.org/2000/svg" xmlns:xlink="http://www.w3.org/1999/xlink" width="10" height="10"><defs><linearGradient id="g" %s="%s"/><clipPath id="x"><rect width="2" height="2"/></clipPath></defs>`+
+					`<g %s="%s"><rect width="5" height="5" %s="%s"/><path d="M0 0L5 5L0 5" %s="%s"/><use %s="%s"/><text %s="%s">t</text></g></svg>`, a, xe, a, xe, a, xe, a, xe, a, xe, a, xe)
+				call("svg.Parse:"+a, src, func() string { _, err := svg.Parse(strings.NewReader(src), "", nil, c07Fetcher); return okErr(err) })
 			}
 		case "descriptor":
 			for at, names := range c07Descriptors {
